@@ -87,11 +87,12 @@ Definition addr_position (mb : Z) (b : bank) (a : Z) : res N :=
     end
   else Ok 0.
 
-(* ResolverContext::get_output_position: `bank.output_offset? + cur_position` (plain +) *)
+(* ResolverContext::get_output_position: `bank.output_offset?.checked_add(cur_position)` (/repo 6fb2301, F61):
+   a position past the representable range is no output position (None), never a panic *)
 Definition get_output_position (b : bank) (pos : N) : res (option N) :=
   match bk_outp b with
   | None => Ok None
-  | Some o => match checked_add o pos with Some p => Ok (Some p) | None => Panic end
+  | Some o => Ok (checked_add o pos)
   end.
 
 (* ResolverContext::get_address *)
